@@ -20,6 +20,7 @@ var BubbleEpoch = time.Date(2000, 1, 1, 0, 0, 0, 0, time.UTC)
 
 const initUptime = time.Hour
 
+//go:norace
 func Now() time.Time {
 	if k := simrt.K; k != nil {
 		return k.Epoch.Add(k.Now())
@@ -30,9 +31,13 @@ func Now() time.Time {
 	return time.Now()
 }
 
+//go:norace
 func Since(t time.Time) time.Duration { return Now().Sub(t) }
+
+//go:norace
 func Until(t time.Time) time.Duration { return t.Sub(Now()) }
 
+//go:norace
 func Sleep(d time.Duration) {
 	k := simrt.K
 	if k == nil {
@@ -52,6 +57,7 @@ type Timer struct {
 	fn   func()
 }
 
+//go:norace
 func NewTimer(d time.Duration) *Timer {
 	k := simrt.K
 	if k == nil || !simrt.Active() {
@@ -70,8 +76,10 @@ func NewTimer(d time.Duration) *Timer {
 	return t
 }
 
+//go:norace
 func After(d time.Duration) <-chan time.Time { return NewTimer(d).C }
 
+//go:norace
 func AfterFunc(d time.Duration, f func()) *Timer {
 	k := simrt.K
 	if k == nil || !simrt.Active() {
@@ -83,6 +91,7 @@ func AfterFunc(d time.Duration, f func()) *Timer {
 	return t
 }
 
+//go:norace
 func (t *Timer) Stop() bool {
 	if t.real != nil {
 		return t.real.Stop()
@@ -91,6 +100,7 @@ func (t *Timer) Stop() bool {
 	return t.h.Stop()
 }
 
+//go:norace
 func (t *Timer) Reset(d time.Duration) bool {
 	if t.real != nil {
 		return t.real.Reset(d)
@@ -106,6 +116,7 @@ type Ticker struct {
 	h    *simrt.TimerHandle
 }
 
+//go:norace
 func NewTicker(d time.Duration) *Ticker {
 	k := simrt.K
 	if k == nil || !simrt.Active() {
@@ -127,6 +138,7 @@ func NewTicker(d time.Duration) *Ticker {
 	return t
 }
 
+//go:norace
 func (t *Ticker) Stop() {
 	if t.real != nil {
 		t.real.Stop()
@@ -136,6 +148,7 @@ func (t *Ticker) Stop() {
 	t.h.Stop()
 }
 
+//go:norace
 func (t *Ticker) Reset(d time.Duration) {
 	if t.real != nil {
 		t.real.Reset(d)
